@@ -141,6 +141,49 @@ fn content(len_sel: u16, fill: u8) -> Vec<u8> {
     (0..n).map(|i| fill.wrapping_add((i % 253) as u8)).collect()
 }
 
+/// Reads a whole stream in one of four ways (the bytes must be the same):
+/// read_to_end on a fresh reader; a short read_exact and then read_to_end;
+/// the second half after a seek, then the first half after seeking back;
+/// plain read() calls of 1,000 bytes.
+fn read_in_style<R: std::io::Read + std::io::Seek>(mut r: R, expected_len: usize, style: usize) -> std::io::Result<Vec<u8>> {
+    use std::io::SeekFrom;
+    let mut out = Vec::new();
+    match style % 4 {
+        0 => {
+            r.read_to_end(&mut out)?;
+        }
+        1 => {
+            let head = expected_len.min(4);
+            let mut h = vec![0u8; head];
+            r.read_exact(&mut h)?;
+            out.extend_from_slice(&h);
+            r.read_to_end(&mut out)?;
+        }
+        2 => {
+            let mid = expected_len / 2;
+            r.seek(SeekFrom::Start(mid as u64))?;
+            let mut tail = Vec::new();
+            r.read_to_end(&mut tail)?;
+            r.seek(SeekFrom::Start(0))?;
+            let mut h = vec![0u8; mid];
+            r.read_exact(&mut h)?;
+            out = h;
+            out.extend_from_slice(&tail);
+        }
+        _ => {
+            let mut piece = [0u8; 1000];
+            loop {
+                let n = r.read(&mut piece)?;
+                if n == 0 {
+                    break;
+                }
+                out.extend_from_slice(&piece[..n]);
+            }
+        }
+    }
+    Ok(out)
+}
+
 fn guard<R>(what: &str, trace: &[String], f: impl FnOnce() -> R) -> Result<R, Fail> {
     crate::engine::catch(f).map_err(|(loc, msg)| Fail::new(format!("{P} panic at={loc}"), format!("{what} panicked: {msg}; history: {}", trace.join("; "))))
 }
@@ -171,11 +214,8 @@ fn verify(s: &mut State, deep: bool) -> Check {
                 if !has {
                     return Err(Fail::new(format!("{P} has-stream-false"), format!("has_stream({n:?}) is false for a live stream; history: {t}")));
                 }
-                let got = guard("read_stream", &s.trace, || -> std::io::Result<Vec<u8>> {
-                    let mut b = Vec::new();
-                    s.pkg.read_stream(n)?.read_to_end(&mut b)?;
-                    Ok(b)
-                })?
+                let style = data.len() + n.len();
+                let got = guard("read_stream", &s.trace, || -> std::io::Result<Vec<u8>> { read_in_style(s.pkg.read_stream(n)?, data.len(), style) })?
                 .map_err(|e| Fail::new(format!("{P} read-failed"), format!("read_stream({n:?}) failed: {e}; history: {t}")))?;
                 if &got != data {
                     return Err(Fail::new(
